@@ -20,9 +20,10 @@ CHECKS = {
             "element handed on with its own coordinates), the INDEX handler (plain index incl. negative; list slices: which elements in which order, element by "
             "element; hash / set slices select by the text range), the unfiltered wildcard (every child and nothing else), the SEARCH handler's non-descendant "
             "forms (per candidate: yielded exactly when search_matches differs from `inverted`; only the candidate loop yields, so inverted = complement), and for "
-            "the entry points exists / get_nodes (which driver runs on the whole document, results relayed unchanged, Unmatched exactly when nothing was yielded, "
-            "exists <=> the required driver yields something); the ANCHOR / traversal / filtered-wildcard handlers, descendant searches and the drivers' "
-            "concatenation are not, so nothing is claimed as proved here.",
+            "the ANCHOR handler's loops, the required-match driver (one dispatcher call per level, one recursive call per result on that result's own "
+            "coordinates, its yields relayed unchanged: the concatenation) and the entry points exists / get_nodes (which driver runs on the whole document, "
+            "results relayed unchanged, Unmatched exactly when nothing was yielded, exists <=> the required driver yields something); the traversal / "
+            "filtered-wildcard handlers, descendant searches, collectors, keyword scans and the optional-match driver are not, so nothing is claimed as proved here.",
             "bounded run-time contract check of the real query API against an executable spec (stand-in for the deductive handler post-conditions)",
             "DESIGN.md §6 C01, Appendix A"),
     "C02": ("exploration",
